@@ -171,6 +171,14 @@ func c06DOp(regs []*dreg, o sx.V) (out sx.V) {
 		}
 		ri.bs.Grow(a[1].I())
 		return ok
+	case "setbit":
+		if ri.bs == nil {
+			return harnessErr("setbit-cell")
+		}
+		if a[2].Bool {
+			return errOr(ri.bs.On(a[1].I()), ok)
+		}
+		return errOr(ri.bs.Off(a[1].I()), ok)
 	case "fift":
 		v := ri.value()
 		return fiftToSx(v.ToFiftHex())
@@ -414,6 +422,59 @@ func (d *dscript) rawReg(i, j int) {
 func (d *dscript) grow(i, n int) {
 	d.g[i].cap += n
 	d.add(op("grow", sx.Nat(i), sx.Nat(n)), "'ok")
+	if d.r.Chance(60) {
+		d.junk(i)
+	}
+}
+
+// On(n) / Off(n): any position below cap, the length does not move; below the length the
+// ideal bit changes, at or after it only the buffer behind the ideal list does
+func (d *dscript) setBit(i, n int, v bool) {
+	g := &d.g[i]
+	want := "'ok"
+	switch {
+	case n >= g.cap:
+		want = "'err"
+	case n < len(g.bits):
+		b := []byte(g.bits)
+		b[n] = '0'
+		if v {
+			b[n] = '1'
+		}
+		g.bits = string(b)
+	}
+	d.add(op("setbit", sx.Nat(i), sx.Nat(n), sx.B(v)), want)
+}
+
+// put 1-bits into the buffer behind the ideal list (positions len..cap-1) through the exported
+// On: whatever is written there later must not depend on them
+func (d *dscript) junk(i int) {
+	g := &d.g[i]
+	if g.cell {
+		return // boc.Cell has no On/Off
+	}
+	room := g.cap - len(g.bits)
+	if room > 0 {
+		d.tags["junk"] = true
+		if room > 24 {
+			room = 24
+		}
+		if d.r.Chance(55) {
+			for k := 0; k < room; k++ {
+				d.setBit(i, len(g.bits)+k, true)
+			}
+		} else {
+			for k := 0; k < 1+d.r.Intn(4); k++ {
+				d.setBit(i, len(g.bits)+d.r.Intn(room), d.r.Chance(85))
+			}
+		}
+	}
+	if d.r.Chance(15) {
+		d.setBit(i, g.cap+d.r.Intn(3), true) // at or past the capacity: Overflow
+	}
+	if len(g.bits) > 0 && d.r.Chance(15) {
+		d.setBit(i, d.r.Intn(len(g.bits)), d.r.Bool()) // a written bit: the ideal list changes there
+	}
 }
 
 func (d *dscript) appendReg(i, j int) {
@@ -590,6 +651,9 @@ func buildDerived(r *prng.R) *dscript {
 		d.newReg(0, len(content)+[]int{0, 0, 1, 8, 100}[r.Intn(5)])
 	}
 	d.writeChunks(0, content)
+	if d.r.Chance(50) {
+		d.junk(0) // Copy keeps it; ReadBits / ReadRemainingBits must not carry it over
+	}
 	d.skip(0, p)
 	if p%8 == 0 {
 		d.tags["aligned"] = true
@@ -789,7 +853,7 @@ func genC06Derived(c *Ctx) {
 		d := buildDerived(r)
 		in := sx.L(d.ops...)
 		var tg []string
-		for _, k := range []string{"cell", "rbits", "rrem", "copy", "raw", "chain", "aligned", "odd", "zeros", "argcur"} {
+		for _, k := range []string{"cell", "rbits", "rrem", "copy", "raw", "chain", "zeros", "argcur", "junk"} {
 			if d.tags[k] {
 				tg = append(tg, k)
 			}
